@@ -27,7 +27,7 @@ RULE = ("direct_calls: generated dT (1-6 terms, 1-6 assemblies) and direct/stati
 ASSUMPTIONS = ["input sigma >= 1 (0 would divide by zero; the schema allows it but the statement's 'scales inversely' excludes it)",
                "an expression cell is evaluated with the nominal temperature rise of the term it multiplies; the Cladding column "
                "multiplies both clad half-rises",
-               "temperature rises in generated tables are > 0 (the built-in expressions divide by dT)"]
+               "a subfactor expression that is infinite at a zero temperature rise contributes nothing (it multiplies zero); the result must stay finite"]
 LEVEL_NOTE = "agreement with the reference to 1e-10 relative; relations exact up to the same tolerance"
 
 LOCS = ["coolant", "clad_od", "clad_mw", "clad_id", "fuel_od", "fuel_cl"]
@@ -174,8 +174,12 @@ class Undefined(Exception):
 def eval_cell(v, dT):
     if isinstance(v, (int, float)):
         return float(v)
-    if dT <= 0:
-        raise Undefined()       # what an expression is worth at a zero rise is not stated
+    if dT < 0:
+        raise Undefined()
+    if dT == 0:
+        # the factor multiplies a zero rise: any finite value gives the same temperatures (DASSH documents that it
+        # replaces infinite factors); the result must be finite all the same
+        return 1.0
     return float(eval(v, {"np": np, "dT": float(dT)}))
 
 
@@ -352,9 +356,10 @@ def recorded_state(draw, q):
         for loc in LOCS[1:]:
             t = T_in + draw(gen.logfl(1.0, 300.0))
             prof = []
+            unpowered = draw(st.integers(0, 7)) == 0          # an unpowered bundle: film, clad, gap and fuel rises exactly zero
             for _ in range(6):
                 prof.append(gen.r6(t))
-                t += draw(gen.logfl(0.01, 400.0))
+                t += 0.0 if unpowered else draw(gen.logfl(0.01, 400.0))
             rows[loc] = [0.0, gen.r6(draw(gen.fl(0.0, 1.0))), float(draw(st.integers(0, 60)))] + prof
         a["rows"] = rows
         asms.append(a)
